@@ -11,6 +11,7 @@ verus! {
 #[verifier::external_body] pub struct Error { _p: u8 }
 pub type Result<T> = core::result::Result<T, Error>;
 #[verifier::external_body] pub fn verif_error(span: Span) -> Error { unimplemented!() }
+#[verifier::external_body] pub fn verif_call_site() -> Span { unimplemented!() }
 #[verifier::external_body] pub struct TokenStream { _p: u8 }
 #[verifier::external_body] pub struct Ident { _p: u8 }
 impl Ident { #[verifier::external_body] pub fn span(&self) -> Span { unimplemented!() } }
@@ -28,6 +29,14 @@ pub struct AngleBracketedGenericArguments { pub args: Punctuated<GenericArgument
 pub enum PathArguments { None, AngleBracketed(AngleBracketedGenericArguments), Parenthesized(Opaque) }
 pub enum GenericArgument { Lifetime(Lifetime), Type(Type), Const(Opaque), AssocType(Opaque), AssocConst(Opaque), Constraint(Opaque) }
 pub struct PathSegment { pub ident: Ident, pub arguments: PathArguments }
+// proc_macro2: `impl<T: ?Sized + AsRef<str>> PartialEq<T> for Ident` (comparison with the text of the identifier), here at T = &str
+pub uninterp spec fn ident_is(i: Ident, s: &str) -> bool;
+impl PartialEq<&str> for Ident { #[verifier::external_body] fn eq(&self, other: &&str) -> (r: bool) ensures r == ident_is(*self, *other) { unimplemented!() } }
+pub struct ImplItemType { pub ident: Ident, pub ty: Type }
+pub enum ImplItem { Const(Opaque), Fn(Opaque), Type(ImplItemType), Macro(Opaque), Verbatim(Opaque) }
+pub struct ItemImpl { pub items: Vec<ImplItem> }
+/// an associated type item named `Output`
+pub open spec fn is_output(it: ImplItem) -> bool { it matches ImplItem::Type(t) && ident_is(t.ident, "Output") }
 
 // syn_utils::expand_self / item_impl::ref_type go through visitors and parse_quote!: uninterpreted
 pub uninterp spec fn expand_self_spec(ty: Type, self_ty: Type) -> Type;
@@ -115,6 +124,14 @@ impl Args {
 //@ fn item_impl.rs to_rhs
 //@   attr #[verus_verify]
 //@   spec r => ensures r == rhs_of(*s, *self_ty)
+//@ end
+// C09: the Output of the derived forms is the type written in the first `type Output = ..;` of the user impl; Err iff there is none
+//@ fn item_impl.rs find_output_type
+//@   attr #[verus_verify]
+//@   spec r => ensures
+//@     | r is Err <==> forall|i: int| 0 <= i < item_impl.items@.len() ==> !is_output(item_impl.items@[i]),
+//@     | r is Ok ==> exists|i: int| 0 <= i < item_impl.items@.len() && is_output(item_impl.items@[i]) && *(r->Ok_0) == (item_impl.items@[i]->Type_0).ty && forall|j: int| 0 <= j < i ==> !is_output(item_impl.items@[j])
+//@   before for item in &item_impl.items ## #[verus_spec(it => invariant it.seq().len() == item_impl.items@.len(), forall|i: int| 0 <= i < item_impl.items@.len() ==> *it.seq()[i] == item_impl.items@[i], 0 <= it.index@ <= item_impl.items@.len(), forall|j: int| 0 <= j < it.index@ ==> !is_output(item_impl.items@[j]))]
 //@ end
 //@ fn item_impl.rs ref_type_with
 //@   attr #[verus_verify]
